@@ -100,6 +100,8 @@ func genHdrForm(r *wire.Rng) string {
 // (0 oidc, 1 kube, 2 xfcc, 3 cert) and transport.
 func genAuthSpec(r *wire.Rng, kind int, tr string, asciiOnly bool) []string {
 	switch kind {
+	case 4:
+		return genTLSCert(r, tr)
 	case 0:
 		tok := "ok"
 		if r.Chance(1, 6) {
@@ -230,8 +232,85 @@ func genAuthSpec(r *wire.Rng, kind int, tr string, asciiOnly bool) []string {
 }
 
 func genAuthnLine(r *wire.Rng) []string {
-	return append([]string{"authn"}, genAuthSpec(r, r.Intn(4), genTransport(r), false)...)
+	return append([]string{"authn"}, genAuthSpec(r, r.Intn(5), genTransport(r), false)...)
 }
+
+var (
+	tlsPools = [][]string{{"td1=R1", "td2=R2"}, {"td1=R1"}, {"td1=R1+R2"}, {"td1=R1", "td1=R3", "td2=R2"}, {"td2=R2", "cluster.local=R1+R3"}, {}}
+	tlsURIs  = []string{"spiffe://td1/ns/a/sa/b", "spiffe://td2/ns/a/sa/b", "spiffe://td1/ns/istio-system/sa/ztunnel", "spiffe://cluster.local/ns/a/sa/b",
+		"spiffe://td3/ns/a/sa/b", "spiffe://td1/x", "spiffe://td1/ns/a/sa/b/c", "https://td1/ns/a/sa/b", "spiffe://td1,td2/ns/a/sa/b"}
+)
+
+// genTLSCert: a client certificate presented in a real TLS handshake (kind 4).
+func genTLSCert(r *wire.Rng, tr string) []string {
+	pools := wire.Pick(r, tlsPools)
+	if r.Chance(1, 12) {
+		return []string{"tlscert", tr, wire.EncList(pools), "nocert", "-"}
+	}
+	l := leafSpec{issuer: wire.Pick(r, []string{"R1", "R1", "R2", "R3", "RX", "I1", "I2", "I3", "IE", "INC"}), when: "ok", eku: "both"}
+	if r.Chance(1, 8) {
+		l.when = wire.Pick(r, []string{"expired", "future"})
+	}
+	if r.Chance(1, 6) {
+		l.eku = wire.Pick(r, []string{"client", "server", "none"})
+	}
+	nuri := 1
+	switch r.Intn(10) {
+	case 0:
+		nuri = 0
+	case 1:
+		nuri = 2
+	}
+	for i := 0; i < nuri; i++ {
+		l.sans = append(l.sans, "U:"+wire.Pick(r, tlsURIs))
+	}
+	if len(pools) > 0 && nuri >= 1 && r.Chance(2, 3) {
+		// mostly a certificate that is in order: a trust domain that has a pool, issued under one of its roots
+		td, roots, _ := strings.Cut(wire.Pick(r, pools), "=")
+		root := wire.Pick(r, strings.Split(roots, "+"))
+		l.issuer = root
+		if r.Chance(1, 3) {
+			switch root {
+			case "R1":
+				l.issuer = "I1"
+				if r.Chance(1, 2) {
+					l.issuer = "I3"
+				}
+			case "R2":
+				l.issuer = "I2"
+			}
+		}
+		l.sans[0] = "U:spiffe://" + td + "/ns/" + wire.Pick(r, []string{"a", "istio-system"}) + "/sa/" + wire.Pick(r, []string{"b", "ztunnel"})
+	}
+	if r.Chance(1, 3) {
+		l.sans = append(l.sans, wire.Pick(r, []string{"D:foo.example.com", "D:istiod.istio-system.svc", "I:0a000001"}))
+	}
+	if r.Chance(1, 8) && len(l.sans) > 1 {
+		l.sans[0], l.sans[len(l.sans)-1] = l.sans[len(l.sans)-1], l.sans[0]
+	}
+	// mostly the intermediates the leaf needs, sometimes none / others
+	var ints []string
+	for iss := l.issuer; ; {
+		up, ok := pkiIssuerOf[iss]
+		if !ok {
+			break
+		}
+		ints = append(ints, iss)
+		iss = up
+	}
+	switch r.Intn(8) {
+	case 0:
+		ints = nil
+	case 1:
+		ints = append(ints, wire.Pick(r, []string{"I1", "I2", "IE", "INC"}))
+	case 2:
+		if len(ints) > 1 {
+			ints = ints[:1]
+		}
+	}
+	return []string{"tlscert", tr, wire.EncList(pools), l.tok(), wire.EncList(ints)}
+}
+
 
 func genAuthn(seed uint64, n int, outp string) {
 	out := wire.Create(outp)
@@ -294,7 +373,7 @@ func credentialClause(f []string, caller *security.Caller, via string) string {
 		}
 		if !okTok || !inter {
 			return "oidc-unvalidated-credential"
-		} else if len(parts) < 4 || !strings.HasPrefix(sub, "system:serviceaccount") {
+		} else if len(parts) < 4 || !strings.HasPrefix(sub, "system:serviceaccount") || parts[2] == "" || parts[3] == "" {
 			return "oidc-malformed-sub-accepted"
 		} else if len(ids) != 1 || ids[0] != "spiffe://"+sanitizeTD(wire.Dec(f[2]))+"/ns/"+parts[2]+"/sa/"+parts[3] {
 			return "oidc-identity-not-from-sub"
@@ -374,6 +453,14 @@ func credentialClause(f []string, caller *security.Caller, via string) string {
 				return "xfcc-identity-not-from-header"
 			}
 		}
+	case "tlscert":
+		want, ok := tlsCertExpected(f)
+		if !ok {
+			return "tlscert-unvalidated-certificate"
+		}
+		if strings.Join(want, "\x00") != strings.Join(ids, "\x00") {
+			return "tlscert-identity-not-from-leaf"
+		}
 	case "cert":
 		chains, err := chainsFromTok(f[3])
 		if f[2] != "tls" || err != nil || len(chains) == 0 || len(chains[0]) == 0 {
@@ -448,6 +535,60 @@ func oracleAuthn(in, outp string) {
 		}
 	}
 	flush()
+}
+
+// tlsCertExpected states, on the spec alone, when a client certificate counts as validated: it is within
+// its validity period, carries exactly one URI SAN of the form spiffe://<td>/ns/<ns>/sa/<sa>, and its
+// issuer chain - following only presented intermediates that are valid CA certificates - ends in a root
+// registered for <td> (not merely for some trust domain).  Then the identities are its SAN values.
+func tlsCertExpected(f []string) ([]string, bool) {
+	l, ok := parseLeafSpec(f[3])
+	if !ok || l.when != "ok" {
+		return nil, false
+	}
+	var uris, vals []string
+	for _, e := range l.sans {
+		v := e[2:]
+		if e[0] == 'I' {
+			b, _ := hex.DecodeString(e[2:])
+			v = string(b)
+		}
+		vals = append(vals, v)
+		if e[0] == 'U' {
+			uris = append(uris, v)
+		}
+	}
+	if len(uris) != 1 {
+		return nil, false
+	}
+	td, _, _, ok := spiffeParts(uris[0])
+	if !ok {
+		return nil, false
+	}
+	roots := map[string]bool{}
+	for _, p := range wire.DecList(f[2]) {
+		if t, rs, _ := strings.Cut(p, "="); t == td {
+			for _, r := range strings.Split(rs, "+") {
+				roots[r] = true
+			}
+		}
+	}
+	presented := map[string]bool{}
+	for _, i := range wire.DecList(f[4]) {
+		presented[i] = true
+	}
+	iss := l.issuer
+	for hops := 0; hops < 6; hops++ {
+		if roots[iss] {
+			return vals, true
+		}
+		up, isInt := pkiIssuerOf[iss]
+		if !isInt || !presented[iss] || iss == "IE" || iss == "INC" {
+			return nil, false
+		}
+		iss = up
+	}
+	return nil, false
 }
 
 func peerHost(tok string) (string, bool) {
